@@ -126,6 +126,7 @@ pub fn eval(n: &Node, at: NV) -> R {
         ),
         Expr::Pos(x) => eval(x, at),
         Expr::Neg(x) => match eval(x, at) {
+            RV::Val(_, Q::Lambert(_)) => RV::Val(NRef { v: NV::Float(f64::NAN), typed: false }, Q::Skip),
             RV::Val(r, q) => match r.v {
                 NV::Int(i) if r.typed => int_or_float(-(i as i128), -(i as f64), q),
                 v => num(-v.f(), q),
